@@ -1194,14 +1194,18 @@ fn format_initializer_inner(
             format_subexpression(expr, 17, OperatorSide::CommaList, output, context)?
         }
         ast::Initializer::Aggregate(exprs) => {
-            output.push_str("{ ");
-            let (head, tail) = exprs.split_first().unwrap();
-            format_initializer_inner(head, output, context)?;
-            for expr in tail {
-                output.push_str(", ");
-                format_initializer_inner(expr, output, context)?;
+            // An aggregate may have no elements (a struct without members)
+            if let Some((head, tail)) = exprs.split_first() {
+                output.push_str("{ ");
+                format_initializer_inner(head, output, context)?;
+                for expr in tail {
+                    output.push_str(", ");
+                    format_initializer_inner(expr, output, context)?;
+                }
+                output.push_str(" }");
+            } else {
+                output.push_str("{}");
             }
-            output.push_str(" }");
         }
         ast::Initializer::StaticSampler(_) => {
             if context.target == Target::Rssl {
